@@ -41,8 +41,19 @@ def extract(src='/repo', target_dir=None, crate='sliding_features', keep=False):
     ensure_driver()
     os.makedirs(CACHE, exist_ok=True)
     if target_dir is None:
-        target_dir = os.path.join(CACHE, 'target')
+        target_dir = os.environ.get('SFA_TARGET_DIR') or os.path.join(CACHE, 'target')
     os.makedirs(target_dir, exist_ok=True)
+    import fcntl
+    lock = open(os.path.join(target_dir, '.sfa.lock'), 'w')
+    fcntl.flock(lock, fcntl.LOCK_EX)  # concurrent checks share the dependency cache: serialise
+    try:
+        return _extract_locked(src, target_dir, crate, keep)
+    finally:
+        fcntl.flock(lock, fcntl.LOCK_UN)
+        lock.close()
+
+
+def _extract_locked(src, target_dir, crate, keep):
     # cargo's freshness cache would skip the wrapper: drop the member's fingerprints
     for d in glob.glob(os.path.join(target_dir, 'debug', '.fingerprint', crate + '-*')):
         shutil.rmtree(d, ignore_errors=True)
